@@ -77,6 +77,14 @@ class Gen:
             d[lang] = self.string(1, maxlen)
         return cls(d)
 
+    def xsd_types(self):
+        dt = self.dt
+        types = [dt.Duration, dt.DateTime, dt.Date, dt.Time, dt.GYearMonth, dt.GYear, dt.GMonthDay, dt.GMonth, dt.GDay, dt.Boolean,
+                 dt.Base64Binary, dt.HexBinary, dt.Float, dt.Double, dt.Decimal, dt.Integer, dt.Long, dt.Int, dt.Short, dt.Byte,
+                 dt.NonPositiveInteger, dt.NegativeInteger, dt.NonNegativeInteger, dt.PositiveInteger, dt.UnsignedLong,
+                 dt.UnsignedInt, dt.UnsignedShort, dt.UnsignedByte, dt.AnyURI, dt.String, dt.NormalizedString]
+        return [t for t in types if t.__name__ not in self.exclude_types and t in dt.XSD_TYPE_NAMES]
+
     def xsd_type(self):
         dt = self.dt
         types = [dt.Duration, dt.DateTime, dt.Date, dt.Time, dt.GYearMonth, dt.GYear, dt.GMonthDay, dt.GMonth, dt.GDay, dt.Boolean,
@@ -156,6 +164,79 @@ class Gen:
         if t is dt.GDay:
             return dt.GDay(rng.randint(1, 31), self.tz_small())
         raise ValueError(t)
+
+    # ------------------------------------------------------------------ the deterministic "zoo" of leaf values
+    def edge_values(self, t) -> list:
+        """every edge value of type `t` the random generator can draw, plus the fixed corner cases of the date/time family —
+        a deterministic list, so that each of them is exercised on EVERY run (see `zoo_submodel`)"""
+        dt = self.dt
+        n = t.__name__
+        tzs = [None, datetime.timezone.utc] + [datetime.timezone(datetime.timedelta(minutes=m)) for m in (60, -60, 330, -570, 1, -1, -59, 59, 839, -839)]
+        tzs_small = [None] + [datetime.timezone(datetime.timedelta(minutes=m)) for m in (0, 60, -60, 330, -30, -59, 45, 345, 719, -719)]
+        ranges = {"Long": (-2**63, 2**63 - 1), "Int": (-2**31, 2**31 - 1), "Short": (-2**15, 2**15 - 1), "Byte": (-128, 127),
+                  "NonPositiveInteger": (-10**30, 0), "NegativeInteger": (-10**30, -1), "NonNegativeInteger": (0, 10**30),
+                  "PositiveInteger": (1, 10**30), "UnsignedLong": (0, 2**64 - 1), "UnsignedInt": (0, 2**32 - 1),
+                  "UnsignedShort": (0, 2**16 - 1), "UnsignedByte": (0, 255), "int": (-10**40, 10**40)}
+        if n in ranges:
+            lo, hi = ranges[n]
+            return [t(v) for v in dict.fromkeys([lo, hi, max(lo, min(hi, 0)), max(lo, min(hi, 1)), max(lo, min(hi, -1)), max(lo, min(hi, 20))])]
+        if t is dt.Boolean:
+            return [False, True]
+        if t in (dt.String, dt.AnyURI):
+            return [t(x) for x in ("", " x ", "a\tb", "cr\rlf\nend", "<&]]>", "äöü€😀", "  ")]
+        if t is dt.NormalizedString:
+            return [t(x) for x in ("", "a b", " x ", "äö", "   ")]
+        if t in (dt.Base64Binary, dt.HexBinary):
+            return [t(x) for x in (b"", b"\x00", b"abc", b"\xff\xfe\x00\x01", bytes(range(7)), bytes(range(256)))]
+        if t in (dt.Float, dt.Double):
+            return [t(x) for x in (0.0, -0.0, 1.5, -2.25, 20.0, 1e300 if t is dt.Double else 1e30, 5e-324, float("inf"), float("-inf"),
+                                   float("nan"), 0.1, 123456789.125)]
+        if t is dt.Decimal:
+            return [decimal.Decimal(x) for x in ("0", "1.5", "-0.001", "20.00", "12345678901234567890.123456789", "100", "-7",
+                                                 "123456789012345678901234567891", "-0.1000000000000000000000000000001", "1.00", "1E+3",
+                                                 "0.000000000000000000000000000000000001", "3.14159265358979323846264338327950288")]
+        if t is dt.Duration:
+            return [dt.Duration(), dt.Duration(years=1), dt.Duration(months=5, days=3), dt.Duration(seconds=30, microseconds=500000),
+                    dt.Duration(years=-12, months=-5, days=-40, hours=-7, minutes=-59, seconds=-1, microseconds=-1000),
+                    dt.Duration(days=40, hours=7), dt.Duration(microseconds=1)]
+        if t is dt.DateTime:
+            return [datetime.datetime(y, mo, d, h, mi, s, us, z) for (y, mo, d, h, mi, s, us), z in
+                    zip([(1, 1, 1, 0, 0, 0, 0), (9999, 12, 28, 23, 59, 59, 123000), (2024, 2, 29, 12, 30, 0, 500000), (1999, 12, 31, 23, 59, 59, 999999),
+                         (2024, 6, 15, 1, 2, 3, 1000), (2000, 1, 1, 0, 0, 0, 0)] * 2, tzs)]
+        if t is dt.Time:
+            return [datetime.time(h, mi, s, us, z) for (h, mi, s, us), z in
+                    zip([(0, 0, 0, 0), (23, 59, 59, 999999), (12, 0, 0, 250000), (1, 2, 3, 0)] * 3, tzs)]
+        if t is dt.Date:
+            return [dt.Date(y, mo, d, z) for (y, mo, d), z in zip([(1000, 1, 1), (9999, 12, 28), (2024, 2, 29), (1999, 12, 31)] * 3, tzs_small)]
+        if t is dt.GYearMonth:
+            return [dt.GYearMonth(y, mo, z) for (y, mo), z in zip([(1000, 1), (9999, 12), (2024, 5)] * 4, tzs_small)]
+        if t is dt.GYear:
+            return [dt.GYear(y, z) for y, z in zip([1000, 9999, 2024] * 4, tzs_small)]
+        if t is dt.GMonthDay:
+            return [dt.GMonthDay(mo, d, z) for (mo, d), z in zip([(1, 1), (12, 31), (2, 29), (6, 15)] * 3, tzs_small)]
+        if t is dt.GMonth:
+            return [dt.GMonth(mo, z) for mo, z in zip([1, 12, 5] * 4, tzs_small)]
+        if t is dt.GDay:
+            return [dt.GDay(d, z) for d, z in zip([1, 31, 15] * 4, tzs_small)]
+        raise ValueError(t)
+
+    def zoo_submodel(self):
+        """one submodel that holds every edge value of every XSD type once as a Property value (and, type by type, once as a
+        Range bound, a Qualifier value and an Extension value)"""
+        m, dt = self.m, self.dt
+        els, quals, exts = [], [], []
+        k = 0
+        for t in self.xsd_types():
+            vals = self.edge_values(t)
+            for v in vals:
+                k += 1
+                els.append(m.Property(f"zoo{k}", t, v))
+            k += 1
+            if t not in (dt.Float, dt.Double) or True:
+                els.append(m.Range(f"zoo{k}", t, vals[0], vals[-1]))
+            quals.append(m.Qualifier(f"zq{k}", t, vals[len(vals) // 2]))
+            exts.append(m.Extension(f"ze{k}", t, vals[-1]))
+        return m.Submodel("urn:vf:zoo", els, id_short="zoo", qualifier=quals, extension=exts)
 
     def tz_small(self):
         r = self.rng.random()
@@ -352,7 +433,8 @@ class Gen:
             child_cls = self.rng.choice(meta.DATA_ELEMENT_CLASSES + (["SubmodelElementCollection", "SubmodelElementList", "Entity"]
                                                                       if d < self.max_depth else []))
             sem = self.opt(self.reference, 0.5)
-            vt = self.xsd_type() if child_cls in ("Property", "Range") else None
+            # AASd-109 demands the value type for lists of Property/Range; it is optional (and meaningless, but legal) for the rest
+            vt = self.xsd_type() if child_cls in ("Property", "Range") or self.chance(0.3) else None
             children = [self.element(d, child_cls, in_list=True, list_sem=sem, value_type=vt) for _ in range(self.rng.randint(0, 3))]
             return m.SubmodelElementList(ids, getattr(m, child_cls), children, semantic_id_list_element=sem,
                                          value_type_list_element=vt, order_relevant=self.chance(0.6), **kw)
